@@ -34,7 +34,11 @@ func addSeqCases(w *world, s *subject, allPairs, triples bool) {
 	for i := 0; i < n; i++ {
 		w.seqs = append(w.seqs, scase{s, []int{i}})
 	}
-	for _, ij := range pairIndexes(n, allPairs || n <= 30, 6) {
+	few := 6
+	if allPairs {
+		few = 8 // thorough tier
+	}
+	for _, ij := range pairIndexes(n, n <= 30 || (allPairs && n <= 60), few) {
 		w.seqs = append(w.seqs, scase{s, []int{ij[0], ij[1]}})
 	}
 	if triples && n <= 14 {
